@@ -1,14 +1,5 @@
 ---------------------------- MODULE MC_TDSLoop ----------------------------
-EXTENDS TDSLoop
-MC_TimerIds == {1, 2}
-MC_DevOf == (1 :> "A") @@ (2 :> "A")
-MC_KindOf == (1 :> "toggle") @@ (2 :> "toggle")
-MC_Taus == {-10, 0, 10, 15, 20, 30, 40, 50}
-MC_SegChoices == {<<40>>, <<20, 40>>, <<15, 40>>, <<25, 40>>}
-MC_FixTs == {TRUE, FALSE}
-MC_ShrinkTs == {TRUE, FALSE}
-MC_SaveEverys == {1}
-MC_Classes == {1, 2, 3}
+EXTENDS TDSLoop, MCC_TDSLoop
 \* bound the exploration depth (a run of <= 40 units with h >= 1 is far shorter)
 DepthBound == TLCGet("level") <= 400
 ===========================================================================
